@@ -218,10 +218,10 @@ def c02(c):
       assumptions=["the poison set is a pure function of the sampled point, so both runs agree on it as long as they sample the same points (a divergence is itself reported)",
                    "variance() is required finite for N>=2, error() is not judged (sqrt of a rounding-negative variance may be NaN legitimately)"])
 def c06(c):
-    c.std([dict(src='c06_nonfinite.cpp', build='asan', shards={'quick': 5, 'thorough': 5}),
-           dict(src='c06_nonfinite.cpp', build='clang', shards={'quick': 1, 'thorough': 5}, tiers=('thorough',))])
+    c.std([dict(src='c06_nonfinite.cpp', build='asan', shards={'quick': 5, 'thorough': 5}, extra_inc=SHIM, libs=['-pthread']),
+           dict(src='c06_nonfinite.cpp', build='clang', shards={'quick': 1, 'thorough': 5}, tiers=('thorough',), extra_inc=SHIM, libs=['-pthread'])])
     for k in ('pairs_plain', 'pairs_vegas', 'pairs_multi_channel', 'pairs_source_integrand-return', 'pairs_source_projector-add-value',
-              'pairs_source_weight(map)', 'poisoned_evaluations', 'fields_compared', 'pairs_everything_poisoned'):
+              'pairs_source_weight(map)', 'poisoned_evaluations', 'fields_compared', 'pairs_everything_poisoned', 'pairs_through_the_mpi_integrators'):
         c.require(k)
 
 
